@@ -146,6 +146,48 @@ Proof.
     apply andb_true_iff in Hs. apply bools_eqb_eq. apply Hs.
 Qed.
 
+(** IN PLACE: the unary operators called with the output array being the operand (bp4v_not(x, x) etc.; LogicSim evaluates every
+    inverting gate as `bp?v_<op>(c[o], ...); bp?v_not(c[o], c[o])`), traced with ONE symbolic array for both arguments so that a plane
+    read after it has been written is the new plane, compute the same function *)
+Lemma ok_bp8_not_inplace : fam_ok 3 out_is3 (un spec_not) bp8_not_inplace [1] = true.
+Proof. vm_compute. reflexivity. Qed.
+Lemma ok_bp8_buf_inplace : fam_ok 3 out_is3 (un spec_buf) bp8_buf_inplace [1] = true.
+Proof. vm_compute. reflexivity. Qed.
+Lemma ok_bp4_not_inplace : fam_ok 2 out_is2 (un spec_not) bp4_not_inplace [1] = true.
+Proof. vm_compute. reflexivity. Qed.
+Lemma ok_bp4_buf_inplace : fam_ok 2 out_is2 (un spec_buf) bp4_buf_inplace [1] = true.
+Proof. vm_compute. reflexivity. Qed.
+
+Theorem unary_inplace_spec c :
+  (exists p, nth_error bp8_not_inplace 0 = Some p /\ run_bool p (code_bits c) = code_bits (spec_not c)) /\
+  (exists p, nth_error bp8_buf_inplace 0 = Some p /\ run_bool p (code_bits c) = code_bits (spec_buf c)) /\
+  (is4 c = true ->
+     (exists p, nth_error bp4_not_inplace 0 = Some p /\ run_bool p (firstn 2 (code_bits c)) = firstn 2 (code_bits (spec_not c))) /\
+     (exists p, nth_error bp4_buf_inplace 0 = Some p /\ run_bool p (firstn 2 (code_bits c)) = firstn 2 (code_bits (spec_buf c)))).
+Proof.
+  assert (E3 : encode_ins 3 [c] = code_bits c) by (destruct c; reflexivity).
+  assert (E2 : encode_ins 2 [c] = firstn 2 (code_bits c)) by (destruct c; reflexivity).
+  split; [|split; [|intro Hc4; split]].
+  - destruct (fam_ok_nth _ _ _ _ _ ok_bp8_not_inplace 0 1 eq_refl) as [p [Hp Hok]].
+    exists p. split; [exact Hp|].
+    rewrite <- E3. apply bools_eqb_eq. apply (op_ok_sound3 _ _ _ _ Hok [c] eq_refl).
+  - destruct (fam_ok_nth _ _ _ _ _ ok_bp8_buf_inplace 0 1 eq_refl) as [p [Hp Hok]].
+    exists p. split; [exact Hp|].
+    rewrite <- E3. apply bools_eqb_eq. apply (op_ok_sound3 _ _ _ _ Hok [c] eq_refl).
+  - destruct (fam_ok_nth _ _ _ _ _ ok_bp4_not_inplace 0 1 eq_refl) as [p [Hp Hok]].
+    exists p. split; [exact Hp|].
+    rewrite <- E2.
+    assert (Hc : forallb is4 [c] = true) by (cbn [forallb]; rewrite Hc4; reflexivity).
+    pose proof (op_ok_sound2 _ _ _ _ Hok [c] eq_refl Hc) as Hs. unfold out_is2 in Hs.
+    apply andb_true_iff in Hs. apply bools_eqb_eq. apply Hs.
+  - destruct (fam_ok_nth _ _ _ _ _ ok_bp4_buf_inplace 0 1 eq_refl) as [p [Hp Hok]].
+    exists p. split; [exact Hp|].
+    rewrite <- E2.
+    assert (Hc : forallb is4 [c] = true) by (cbn [forallb]; rewrite Hc4; reflexivity).
+    pose proof (op_ok_sound2 _ _ _ _ Hok [c] eq_refl Hc) as Hs. unfold out_is2 in Hs.
+    apply andb_true_iff in Hs. apply bools_eqb_eq. apply Hs.
+Qed.
+
 (** the two storage formats agree (corollary) *)
 Theorem mv_bp_agree o k cs : 1 <= k <= 4 -> length cs = k ->
   exists pm pb, nth_error (mv_of o) (k - 1) = Some pm /\ nth_error (bp8_of o) (k - 1) = Some pb /\
